@@ -81,7 +81,7 @@ theorem print_lt (m : Msg) (h : m.Valid) : B (print m) := by
     simp at this
     omega
   | text c =>
-    have := ProtoText.scalar_lt c h.1
+    have := ProtoUtf8.scalar_lt c h.1
     exact B_utf8 c this.1
   | mouse code x y press =>
     cases press <;> (simp only [print, CSI]; bsolve)
@@ -140,18 +140,18 @@ theorem print_lt (m : Msg) (h : m.Valid) : B (print m) := by
     · cases mods with
       | none => exact B_nil
       | some m => exact B_cons (by omega) (B_showNat _)
-  | kittyImage id placement error =>
+  | kittyImage id number placement error =>
     rw [ProtoTermcap.kittyImage_print]
     refine B_append (by blit) (B_append (B_append ?_ (B_cons (by omega) ?_)) (by blit))
     · intro b hb
-      have := ProtoTermcap.kHead_bytes id placement b hb
+      have := ProtoTermcap.kHead_bytes id number placement b hb
       omega
     · cases error with
       | none => simp only [ProtoTermcap.kMsg]; blit
-      | some msg => simp only [ProtoTermcap.kMsg]; exact (h.2.2 msg rfl).1.2.2
+      | some msg => simp only [ProtoTermcap.kMsg]; exact (ProtoUtf8.textOk_facts msg (h.2.2.2 msg rfl).1).2.2
   | paste t =>
     rw [ProtoText.paste_print]
-    exact B_append (by blit) (B_append h.2.2 (by blit))
+    exact B_append (by blit) (B_append (ProtoUtf8.textOk_facts t h).2.2 (by blit))
   | sgr items =>
     rw [ProtoSgr.sgr_print]
     refine B_append (by blit) (B_append ?_ (by blit))
